@@ -271,6 +271,8 @@ func C16() int {
 		}
 		if why := checkRequestLog(log, expectedURLs(es, ee)); why != "" {
 			c.Violation("request-log|cli|"+whyKind(why), fmt.Sprintf("%s: %s", cf.name, why), rp)
+		} else if requestsInHostOrder(log, expectedURLs(es, ee)) {
+			c.Count("cli_runs_whose_downloads_left_in_host_order(observed, not demanded)", 1)
 		}
 		// <out>.<i> == redaction of host i's log under the active flags
 		for i := range names {
@@ -328,9 +330,9 @@ func whyKind(why string) string {
 	switch {
 	case strings.Contains(why, "extra request"):
 		return "extra-requests"
-	case strings.Contains(why, "never sent"):
+	case strings.Contains(why, "never requested"), strings.Contains(why, "authenticated download(s) of"):
 		return "missing-request"
-	case strings.Contains(why, "expected request"):
+	case strings.Contains(why, "unexpected request"), strings.Contains(why, "expected the first request"):
 		return "wrong-request"
 	}
 	return "other"
